@@ -30,7 +30,7 @@ import (
 func init() { vk.Register("C28", "exploration", run) }
 
 const (
-	key1 = "verif-c28-key-one"
+	key1 = "verif-c28-key-one-0123456789-abcdefghijklmnopqrstuvwxyz" // longer than any cipher key size: every byte must matter
 	key2 = "verif-c28-key-two"
 )
 
@@ -281,6 +281,8 @@ func unitTamper(c *vk.Ctx) {
 		{"key2", mustGCM(c, key2)},
 		{"emptykey", mustGCM(c, "")},
 		{"key1+space", mustGCM(c, key1+" ")},
+		{"key1-same-first-40-bytes", mustGCM(c, key1[:40]+"-another-tail")},
+		{"key1-truncated-to-32-bytes", mustGCM(c, key1[:32])},
 		{"key1-uppercased", mustGCM(c, strings.ToUpper(key1))},
 		{"unencrypted-base64", encoder.NewBase64Encoder()},
 		{"noopcrypt+base64", encoder.NewTokenEncoder(encrypter.NewNoopEncrypter(), encoder.NewBase64Encoder())},
